@@ -199,7 +199,10 @@ def metric_laws_sampling(tier, rng, rep):
         for nm, v in (("dxy", dxy), ("dyz", dyz), ("dxz", dxz), ("dxx", dxx)):
             if not np.all(np.isfinite(v)) or np.any(np.asarray(v) < 0):
                 rep.fail("finite_nonneg", f"{nm} = {np.asarray(v).ravel()[:3]}", inp)
-        if np.any(np.abs(dxx) > 1e-6):
+        # float64: <x^,x^> = -1 is a difference of terms of size 1/(1-|x|^2), so arccosh(1+delta) ~ sqrt(2 delta) with
+        # delta ~ eps/(1-|x|^2): the tolerance follows that conditioning (the clause is 'zero, never nan')
+        tol0 = 1e-6 + 8 * np.sqrt(2.3e-16 / np.maximum(1 - np.sum(x * x, axis=-1), 1e-300))
+        if np.any(np.abs(dxx) > tol0):
             rep.fail("zero_on_equal_points", f"d(x,x) = {np.asarray(dxx).ravel()[:3]}", inp)
         slack = 1e-7 * (1 + np.abs(dxy) + np.abs(dyz))
         if np.any(dxz > dxy + dyz + slack):
